@@ -205,6 +205,18 @@ CHECKS = {
              'documented fall-back key.',
         note='Trusted: mc.ref.template, mc.ref.tables. Ill-formed lists (replication past its scope) are outside FM-94. '
              'Beyond the bound: lists longer than 8 descriptors over a richer alphabet.'),
+    'C20': dict(
+        level='model_checking', design='DESIGN.md §4 C20',
+        technique='exhaustive exploration of ALL stream histories up to length 3 (thorough 4) over 10 events (5 definition '
+                  'messages incl. redefinition, the NCEP replication-only idiom and a 0-subset definition; 5 data messages) '
+                  'with deviation-bounded definition contents (width/scale/reference/unit), each history scanned as one byte '
+                  'stream from a reset process-wide cache; abstract state = accumulated definitions; plus the real NCEP file',
+        text='For every history the reference model builds each data message with tables = bundled U definitions seen so '
+             'far (later wins), so expected labels and values are known by construction; the real scanner must deliver every '
+             'definition and every decodable data message with exactly those values, keep standard descriptors unchanged, '
+             'and refuse data messages whose descriptors are not (yet) defined.',
+        note='Trusted: mc.ref.ncep (layout A.8), mc.ref.codec. Only the NCEP layout of tests/data/prepbufr.bufr is in scope. '
+             'Beyond the bound: histories longer than 4 events, more than 2 simultaneous deviations of the definition.'),
     'C05': dict(
         level='model_checking', design='DESIGN.md §4 C05',
         technique='exhaustive enumeration of ALL columns over the full raw domain (n<=3,w<=3; thorough n<=4,w<=4) per '
@@ -238,7 +250,7 @@ CHECKS = {
              'elements/markers and 204 across markers are outside the envelope (FM-94 ambiguous).'),
 }
 
-NOT_YET = 'check not built yet in this round (design in DESIGN.md §4); no claim is made'
+NOT_YET = 'no check exists for this property; no claim is made'
 
 
 def build():
